@@ -19,6 +19,7 @@ construction does not raise; decode returns a 0/1 vector of length 2n without
 raising; for Matching / UnionFind / BP-OSD the correction's syndrome equals
 the input syndrome; the zero syndrome yields the zero correction.
 """
+import signal
 import traceback
 
 import json
@@ -61,6 +62,10 @@ RULE = ('decoders = panqec.config.DECODERS; classes = allowed_codes (None -> all
         '(BOUNDS.deep: decoder, class, size, Pauli letter, w, shards) add, at the base point in uint8 with one '
         'reused decoder per shard, the complete set of syndromes of errors that put that one letter on every '
         'subset of <= w qubits (union-find on odd tori up to weight 3, X-cube matching on 4x4x4 at weight 2). '
+        'MERGE families for union-find on 6x6..8x8 (thorough 10x10) tori (BOUNDS.merge): deterministic dense '
+        'error patterns (one Weyl rotation per qubit, densities 0.08-0.14, both sectors) and, in thorough, all '
+        'translations of k collinear / staggered defect-pair chains. Every decode runs under a '
+        'DECODE_TIMEOUT_S alarm: not returning is the violation decode-does-not-terminate. '
         'A sub-case (point, mode, '
         'dtype, syndrome) is distinct by construction and non-trivial when the syndrome is non-zero and the decode '
         'was executed (counted from the set of executed sub-cases).')
@@ -170,8 +175,42 @@ DEEP = {
         ('XCubeMatchingDecoder', 'XCubeCode', [4, 4, 3], 'X', 2, 6),
     ],
 }
+# MERGE families for the union-find decoder on larger tori: syndromes with many defects, so that clusters are
+# absorbed several times in a row while they grow (a cluster merged into a second one that is later merged into
+# a third).  Both are deterministic and enumerated completely; no RNG is involved.
+#  dense: (size, letter, density, count, shards) -- error pattern j (0 <= j < count) puts `letter` on qubit q iff
+#         ((j+1) * a_q mod 2^32) < density * 2^32, a_q = low 32 bits of isqrt(p_q << 64), p_q the q-th prime (one
+#         Weyl / low-discrepancy rotation per qubit: every qubit errs in a fraction `density` of the patterns).
+#  chain: (size, letter, k, gaps, stags, shards) -- k single-qubit errors (= k defect pairs) on edges of one
+#         orientation (h, v), placed along a lattice direction (x, y) at distances g_1..g_{k-1} in `gaps`
+#         (span < L), every second one shifted sideways by s in `stags` cells (0 = collinear), at EVERY
+#         translation of the torus: all orientation x direction x s x gap tuples x translations.
+# Each decode runs under DECODE_TIMEOUT_S; a decode that does not return is the violation
+# 'decode-does-not-terminate'.
+DECODE_TIMEOUT_S = 20
+MAX_TIMEOUTS_PER_CASE = 3
+_UF = ('UnionFindDecoder', 'Toric2DCode')
+MERGE = {
+    'quick': {
+        'dense': [([8, 8], 'X', 0.14, 100, 4), ([8, 8], 'Z', 0.14, 100, 4),
+                  ([6, 8], 'X', 0.14, 100, 3), ([6, 8], 'Z', 0.14, 100, 3),
+                  ([8, 6], 'X', 0.14, 100, 3), ([8, 6], 'Z', 0.14, 100, 3),
+                  ([8, 8], 'X', 0.08, 100, 2), ([8, 8], 'Z', 0.08, 100, 2),
+                  ([6, 8], 'Z', 0.10, 100, 2), ([8, 6], 'X', 0.10, 100, 2)],
+        'chain': [],
+    },
+    'thorough': {
+        'dense': [(sz, lt, d, 400, 12) for sz in ([6, 6], [8, 8], [6, 8], [8, 6]) for lt in 'XZ'
+                  for d in (0.08, 0.14)]
+                 + [([10, 10], lt, 0.1, 150, 15) for lt in 'XZ'],
+        'chain': [([8, 8], lt, 5, [1, 2], [0, 1, 2], 48) for lt in 'XZ']
+                 + [([6, 8], 'Z', 5, [1, 2], [0, 1, 2], 24)],
+    },
+}
 for _t in ('quick', 'thorough'):
     BOUNDS[_t]['deep'] = [list(d) for d in DEEP[_t]]
+    BOUNDS[_t]['merge'] = {k: [list(e) for e in v] for k, v in MERGE[_t].items()}
+    BOUNDS[_t]['decode_timeout_s'] = DECODE_TIMEOUT_S
 
 
 # ------------------------------------------------------------------ cases
@@ -294,6 +333,18 @@ def cases(tier, seed):
                          'params_list': [dict(PARAMS.get(dname, [{}])[0])], 'rates': [BASE_RATE],
                          'dtypes': ['uint8'], 'modes': ['reused-asc'], 'w': w, 'rank_all': b['rank_all'],
                          'space': {'letter': letter, 'w': w}, 'shard': [i, shards]})
+    if _UF[0] in decs and (decs[_UF[0]].allowed_codes is None or _UF[1] in decs[_UF[0]].allowed_codes):
+        specs = [(e[0], {'type': 'dense', 'letter': e[1], 'density': e[2], 'count': e[3]}, e[4])
+                 for e in MERGE[tier]['dense']]
+        specs += [(e[0], {'type': 'chain', 'letter': e[1], 'k': e[2], 'gaps': list(e[3]), 'stags': list(e[4])},
+                   e[5]) for e in MERGE[tier]['chain']]
+        for size, space, shards in specs:
+            for i in range(shards):
+                deep.append({'decoder': _UF[0], 'cfg': {'cls': _UF[1], 'size': list(size), 'deformation': None},
+                             'n': F.n_qubits(_UF[1], size) or 0, 'profile': 'MERGE', 'noise': _noises(_UF[1])[0],
+                             'params_list': [{}], 'rates': [BASE_RATE], 'dtypes': ['uint8'],
+                             'modes': ['reused-asc'], 'w': 0, 'rank_all': b['rank_all'],
+                             'space': dict(space), 'shard': [i, shards]})
     return out + deep + sess
 
 
@@ -364,6 +415,73 @@ def sector_space(H, n, letter, w):
             seen.setdefault(sy, er)
     order = sorted(seen.items(), key=lambda t: (bin(t[0]).count('1'), t[0]))
     return order, gf2.rank(H), '%s-only w<=%d' % (letter, w)
+
+
+def _space_of(H, n, errors, label):
+    seen = {}
+    for e in errors:
+        seen.setdefault(gf2.syndrome(H, e, n), e)
+    order = sorted(seen.items(), key=lambda t: (bin(t[0]).count('1'), t[0]))
+    return order, gf2.rank(H), label
+
+
+def _letter_on(qs, letter, n):
+    e = 0
+    for q in qs:
+        e ^= (1 << q if letter in 'XY' else 0) | (1 << (n + q) if letter in 'YZ' else 0)
+    return e
+
+
+def dense_space(H, n, letter, density, count):
+    """MERGE/dense (see the table): `count` deterministic error patterns of the given density."""
+    import math
+    primes, c = [], 2
+    while len(primes) < n:
+        if all(c % p for p in primes if p * p <= c):
+            primes.append(c)
+        c += 1
+    a = [math.isqrt(p << 64) & 0xffffffff for p in primes]
+    thr = int(density * (1 << 32))
+    errors = [_letter_on([q for q in range(n) if ((j + 1) * a[q]) & 0xffffffff < thr], letter, n)
+              for j in range(count)]
+    return _space_of(H, n, errors, 'dense %s d=%g j<%d' % (letter, density, count))
+
+
+def chain_space(H, n, code, letter, k, gaps, stags):
+    """MERGE/chain (see the table).  The lattice labels (qubit_index of the torus: horizontal edges at (odd,
+    even), vertical edges at (even, odd), coordinates mod 2L) only select which qubits carry the errors; the
+    syndromes are computed by the reference from H."""
+    import itertools
+    lx, ly = code.size
+    qi = code.qubit_index
+    errors = []
+    for orient in 'hv':
+        for direc in 'xy':
+            span = lx if direc == 'x' else ly
+            for stag in stags:
+                for gp in itertools.product(gaps, repeat=k - 1):
+                    pos = [0]
+                    for g in gp:
+                        pos.append(pos[-1] + g)
+                    if pos[-1] >= span:
+                        continue
+                    for tx in range(lx):
+                        for ty in range(ly):
+                            qs = []
+                            for i, p_ in enumerate(pos):
+                                u, v = (p_, stag * (i % 2)) if direc == 'x' else (stag * (i % 2), p_)
+                                cx, cy = (tx + u) % lx, (ty + v) % ly
+                                qs.append(qi[(2 * cx + 1, 2 * cy) if orient == 'h' else (2 * cx, 2 * cy + 1)])
+                            errors.append(_letter_on(qs, letter, n))
+    return _space_of(H, n, errors, 'chain %s k=%d gaps=%s stags=%s' % (letter, k, list(gaps), list(stags)))
+
+
+class _DecodeTimeout(BaseException):
+    pass
+
+
+def _on_alarm(signum, frame):
+    raise _DecodeTimeout()
 
 
 # ------------------------------------------------------------------ evaluation
@@ -471,8 +589,13 @@ def eval_case(case):
     n = code.n
     H = gf2.matrix_rows(code.stabilizer_matrix)
     m = len(H)
-    if case.get('space'):
-        space, r, skind = sector_space(H, n, case['space']['letter'], case['space']['w'])
+    sp = case.get('space')
+    if sp and sp.get('type') == 'dense':
+        space, r, skind = dense_space(H, n, sp['letter'], sp['density'], sp['count'])
+    elif sp and sp.get('type') == 'chain':
+        space, r, skind = chain_space(H, n, code, sp['letter'], sp['k'], sp['gaps'], sp['stags'])
+    elif sp:
+        space, r, skind = sector_space(H, n, sp['letter'], sp['w'])
     else:
         space, r, skind = syndrome_space(H, n, case['w'], case['rank_all'])
     sh = case.get('shard') or [0, 1]
@@ -545,7 +668,20 @@ def eval_case(case):
         res['evals'] += 1
         executed.add((cur['idx'], rate, dtype, mode, s_int))
         try:
-            corr = dec.decode(arg)
+            if timer['on']:
+                signal.setitimer(signal.ITIMER_REAL, DECODE_TIMEOUT_S)
+            try:
+                corr = dec.decode(arg)
+            finally:
+                if timer['on']:
+                    signal.setitimer(signal.ITIMER_REAL, 0)
+        except _DecodeTimeout:
+            timer['hits'] += 1
+            report('decode-does-not-terminate', mode, dtype, rate, idx,
+                   {'message': 'decode did not return within %d s' % DECODE_TIMEOUT_S},
+                   timeout_s=DECODE_TIMEOUT_S)
+            outcomes.add('%s|does-not-terminate' % dname)
+            return 'timeout'
         except Exception as exc:
             if dtype in ('list', 'bool') and isinstance(exc, (TypeError, ValueError)):
                 # not the declared argument type (ndarray of 0/1 integers): a refusal is counted, not reported;
@@ -568,30 +704,46 @@ def eval_case(case):
         else:
             outcomes.add('%s|ok|w%d' % (dname, gf2.weight(c, n)))
 
-    for pi, params in enumerate(case['params_list']):
-        cur['params'] = dict(params)
-        cur['idx'] = pi
-        for rate in case['rates']:
-            model = make_model()
-            probe = construct(model, rate, 'construct')
-            res['evals'] += 1
-            if probe is None:
-                outcomes.add('%s|construction-raises' % dname)
-                continue
-            for dtype in case['dtypes']:
-                for mode in case['modes']:
-                    if mode == 'fresh':
-                        for idx in todo:
-                            dec = construct(model, rate, mode)
-                            if dec is None:
-                                break
-                            one(dec, mode, dtype, rate, idx)
-                    else:
-                        dec = construct(model, rate, mode)
-                        if dec is None:
-                            continue
-                        for idx in (todo if mode == 'reused-asc' else todo[::-1]):
-                            one(dec, mode, dtype, rate, idx)
+    # per-decode alarm (main thread only; otherwise decodes run unguarded)
+    timer = {'on': False, 'hits': 0}
+    try:
+        old_handler = signal.signal(signal.SIGALRM, _on_alarm)
+        timer['on'] = True
+    except ValueError:
+        old_handler = None
+
+    def drive():
+        for pi, params in enumerate(case['params_list']):
+            cur['params'] = dict(params)
+            cur['idx'] = pi
+            for rate in case['rates']:
+                model = make_model()
+                probe = construct(model, rate, 'construct')
+                res['evals'] += 1
+                if probe is None:
+                    outcomes.add('%s|construction-raises' % dname)
+                    continue
+                for dtype in case['dtypes']:
+                    for mode in case['modes']:
+                        dec = None
+                        for idx in (todo[::-1] if mode == 'reused-desc' else todo):
+                            if dec is None or mode == 'fresh':
+                                dec = construct(model, rate, mode)
+                                if dec is None:
+                                    break
+                            if one(dec, mode, dtype, rate, idx) == 'timeout':
+                                dec = None          # state unknown after an interrupted decode: rebuild
+                                if timer['hits'] >= MAX_TIMEOUTS_PER_CASE:
+                                    bump('cases_cut_short_after_timeouts')
+                                    res['capped'] = 1
+                                    return
+
+    try:
+        drive()
+    finally:
+        if timer['on']:
+            signal.setitimer(signal.ITIMER_REAL, 0)
+            signal.signal(signal.SIGALRM, old_handler)
 
     res['nontrivial'] = sum(1 for t in executed if t[4] != 0)
     # representatives first: one per (kind, exc), then one per (kind, exc, mode), then the dtype variants --
